@@ -408,6 +408,12 @@ class P(Prop):
             else:
                 groups.append(self.gen_group(rng))
         infos = [self.gen_evidence(rng, g) for g in groups]
+        # "any sizes": a group of size zero (what merge_groups leaves behind until remove_empty_groups runs) with an empty
+        # evidence list at the same position, before / between / after the other groups: positions must stay aligned
+        if rng.random() < 0.06:
+            k = rng.randint(0, len(groups))
+            groups.insert(k, [])
+            infos.insert(k, [])
         call = {"groups": groups, "infos": infos}
         if scorer == "table":
             call["table_scores"] = [rat(rng.choice(SCORE_GRID)) for _ in groups]
